@@ -1,4 +1,5 @@
 use crate::common::{Args, Out};
+pub mod calendar;
 pub mod conn_enum;
 pub mod exchange;
 pub mod framing;
@@ -26,6 +27,7 @@ pub fn run(args: &Args, out: Out) {
         "sse-replay" => sse::run_replay(args, out),
         "sse-content" => sse::run_content(args, out),
         "sse-threads" => sse::run_threads(args, out),
+        "date-sweep" => calendar::run_sweep(args, out),
         "headers-enum" => headers::run_enum(args, out),
         "ascii-ctors" => headers::run_ctors(args, out),
         "framing-gen" => framing::run_gen(args, out),
